@@ -63,6 +63,7 @@ vars == <<conf, cloud, crE, crI, pods, rt, up, given, delp, told, absent, seen, 
 
 Fam(a) == IF a < 100 THEN 4 ELSE 6
 CapOf(f) == IF f = 4 THEN conf.cap4 ELSE conf.cap6
+FamOn(f) == IF f = 4 THEN conf.v4 ELSE conf.v6
 Addrs(e) == cloud[e].v4 \cup cloud[e].v6
 FamSet(e, f) == IF f = 4 THEN cloud[e].v4 ELSE cloud[e].v6
 (* what the controller can know of an interface: the published record plus what this reconcile was told *)
@@ -196,6 +197,9 @@ CrWrite(ok) ==
     /\ wr' = IF ok THEN "ok" ELSE "fail"
     /\ UNCHANGED <<conf, cloud, crE, crI, pods, rt, up, given, delp, told, absent, seen, rg, fresh, healthy>>
 
+(* The reconcile gave up before it looked at the pods (listing the interfaces failed): its record is not judged for obligations. *)
+EarlyReturn == CrWrite(FALSE)
+
 Restart == UNCHANGED vars
 
 IsNew(y) == ~\E x \in crI : x.e = y.e /\ x.a = y.a /\ x.p = y.p
@@ -216,6 +220,11 @@ CrUpdate(NE, NI) ==
                   /\ (IF pods[y.p].rdma THEN EniRdma(NE, y.e) ELSE (conf.rdma > 0 => ~EniRdma(NE, y.e)))   \* RDMA pods on RDMA interfaces only and vice versa,
                   /\ (Fam(y.a) = 4 => pods[y.p].r4 \in {0, y.a})                                     \* and never another address than the one reported
                   /\ (Fam(y.a) = 6 => pods[y.p].r6 \in {0, y.a}))
+    /\ G("C02", \A y \in Bound(NI) : IsNew(y) =>                                                     \* an address that another existing pod reports is not given away
+            \A q \in Pods \ {y.p} : PodLive(q) => y.a \notin {pods[q].r4, pods[q].r6})
+    /\ G("C02", wr # "fail" => \A q \in Pods : PodLive(q) => \A a \in {pods[q].r4, pods[q].r6} \ {0} :    \* re-adoption: a reported address that the record holds
+            \A y \in NI : y.a = a /\ FamOn(Fam(a)) /\ ~(\E x \in crI : x.e = y.e /\ x.a = a /\ x.p \notin {0, q})   \*  (not owned by somebody else before) is bound to that pod
+                        => y.p = q)
     \* ---- C03: nothing is taken from a pod that still exists or whose teardown is not reported
     /\ G("C03", \A x \in Bound(crI) : (~Kept(x, NI) \/ Marked(x, NE, NI)) => Reclaimable(x))
     \* ---- C08: an interface created since the last published record and still existing is recorded (in use or for deletion)
@@ -310,7 +319,6 @@ PF == IF conf.v4 THEN 4 ELSE 6                                                  
 Entries(e, f) == { x \in crI : x.e = e /\ Fam(x.a) = f }
 IdleOn(e, f) == { x \in Entries(e, f) : x.p = 0 /\ x.st = "Valid" }
 InUseEnis == { y \in crE : y.st = "InUse" }
-FamOn(f) == IF f = 4 THEN conf.v4 ELSE conf.v6
 HasAll(p) == /\ (conf.v4 => \E x \in crI : x.p = p /\ Fam(x.a) = 4)
              /\ (conf.v6 => \E x \in crI : x.p = p /\ Fam(x.a) = 6)
 ClassOk(y, rd) == IF rd THEN y.rdma ELSE (conf.rdma > 0 => ~y.rdma)
